@@ -173,6 +173,25 @@ def run(prog):
                     else:
                         errs.append("?growth condition %s %s" % (show(c)[:40], val))
                 if not okf and not errs:
+                    # `for _ in table.len()..=n { table.push(None) }`: one push per index from the old length up to n
+                    for (h_, l_), init in te.mu_init.items():
+                        if cs.bb not in g_.cfg.loop_headers.get(h_, ()):
+                            continue
+                        it = strip(init)
+                        while mir.is_call(it, "into_iter") or mir.is_call(it, "iter"):
+                            it = strip(it[2][0])
+                        rng = None
+                        if it[0] == "agg" and (it[2] or "").endswith("Range") and len(it[4]) == 2:
+                            rng = (strip(it[4][0]), strip(it[4][1]), False)
+                        elif mir.is_call(it, "new") and "RangeInclusive" in (it[1].key() or "") and len(it[2]) == 2:
+                            rng = (strip(it[2][0]), strip(it[2][1]), True)
+                        if rng and mir.is_call(rng[0], "len") and "var_to_val" in show(rng[0]):
+                            hi_ = show(rng[1])
+                            if rng[2] or "Add" in hi_:
+                                okf = True
+                            else:
+                                errs.append("the table grows to length index, not index + 1: the store at the index is out of bounds")
+                if not okf and not errs:
                     errs.append("?growth condition not found")
             if any(cs.callee.name in ("resize", "resize_with", "extend") and "var_to_val" in show(cs.args[0]) for cs in te.calls if cs.args):
                 found = True            # LT decides whether such a resize is growth-only
@@ -185,6 +204,8 @@ def run(prog):
     if fn is not None:
         r = strip(fn.terms.ret)
         errs = []
+        from . import canon as _canon
+        r = _canon.inline_local(prog, r, lambda h: h.impl_self == fn.impl_self and "{closure" not in h.npath and h is not fn)
         idxs = [strip(x) for x in mir.subterms(r) if (mir.is_call(strip(x), "index") or mir.is_call(strip(x), "get")) and len(strip(x)[2]) == 2]
         idxs = [x for i, x in enumerate(idxs) if x not in idxs[:i]]
         if len(idxs) != 1:
@@ -211,6 +232,9 @@ def run(prog):
                 k_, who = label_index(x)
                 if k_ == "lit":
                     return who
+                # read through the type's own reader, whose contract (table[label]) is the instance above
+                if mir.is_call(x, "var_weight") and len(x[2]) == 2 and mir.is_call(strip(x[2][1]), "label"):
+                    return strip(strip(x[2][1])[2][0])
             return None
 
         def component(t):
